@@ -178,4 +178,23 @@ def cKbi (pw : α → α → α) (refsafe : Bool) (ts sr0 sr1 d0 d1 w mid p x0 :
   (cK r.1 r.2 e1, cB r.1 r.2 e1, cImp pw e0 e1 w mid p x0)
 
 end
+
+/-! ### sparse inertia matrix: where `euler` adds the implicit joint damping
+
+`sparseRows dof_parentid` is the row layout of the lower-triangular CSR matrix `M` (`M_rownnz`, `M_rowadr`, `M_colind` of the
+compiled model, compared exactly with the tree-compiled arrays by the driver op `diagadr`); `diagAdr` is the index expression
+`m.M_rowadr + m.M_rownnz - 1` of the sparse branch of `euler` in mjx/_src/forward.py (extracted from the source with ast by the check). -/
+
+/-- rows of the lower-triangular CSR inertia matrix from `dof_parentid`: row i = row of its parent dof followed by i
+    (ancestor dofs in increasing order, the diagonal last); a parent that is not an earlier dof gives a root row -/
+def sparseStep (rows : List (List Nat)) (p : Int) : List (List Nat) :=
+  let base := if p < 0 then [] else (rows[p.toNat]?).getD []
+  rows ++ [base ++ [rows.length]]
+
+def sparseRows (parents : List Int) : List (List Nat) := parents.foldl sparseStep []
+
+def rowAdr (rows : List (List Nat)) (i : Nat) : Nat := ((rows.take i).map List.length).sum
+/-- the address `M_rowadr[i] + M_rownnz[i] - 1` that `euler` of mjx/_src/forward.py adds `h * dof_damping[i]` to -/
+def diagAdr (rows : List (List Nat)) (i : Nat) : Nat := rowAdr rows i + ((rows[i]?).getD []).length - 1
+
 end MjProof.MjxMath
